@@ -8,6 +8,7 @@ import (
 	"go/types"
 	"golang.org/x/tools/go/packages"
 	"regexp"
+	"strconv"
 	"strings"
 )
 
@@ -18,6 +19,7 @@ func init() {
 	reg("PARSE", ruleParse)
 	reg("PARSE-8", ruleParse8)
 	reg("DS", ruleDesugar)
+	reg("LEX-8", ruleLex8)
 }
 
 func (c *Ctx) constStr(e ast.Expr) (string, bool) {
@@ -551,6 +553,25 @@ func ruleParse(c *Ctx) {
 	rightOperand("unaryPrefix", false)
 	rightOperand("binaryR", true)
 	rightOperand("parseQuestion", true)
+	// the operand BETWEEN `?` and `:` (and every other bracketed operand: call arguments, subscripts, list / map / object
+	// members, the parenthesised expression) is delimited by tokens on both sides, so it is a full expression: power 0
+	for _, fn := range []string{"parseQuestion", "parseCall", "parseSubscript", "parseGroup", "parseList", "parseMap", "parseObj"} {
+		fd := c.FuncDecl("parser", fn)
+		if fd == nil {
+			continue // optional: the floor of the rule does not depend on these
+		}
+		calls := c.callsTo(fd.Body, "parser.parser.expr")
+		if fn == "parseQuestion" {
+			if len(calls) < 2 {
+				continue
+			}
+			calls = calls[:len(calls)-1] // the last one is the right operand, decided above
+		}
+		for _, call := range calls {
+			v := c.constOf(call.Args[0])
+			c.R.Check(v != nil && constant.Sign(v) == 0, "parser."+fn, "PARSE-2 delimited operand parsed with power 0", call.Pos(), "a bracketed / delimited operand is a full expression", "a delimited operand is parsed with "+src(call.Args[0])+" instead of 0: operators looser than that power are rejected inside brackets although the delimiters make the parentheses redundant")
+		}
+	}
 	if pd := c.FuncDecl("parser/oper", "BP.Pred"); pd != nil {
 		okPred := false
 		rets := returnsOf(pd.Body)
@@ -1399,4 +1420,127 @@ func (c *Ctx) regexpVarByQual(q string) *regexp.Regexp {
 		return nil
 	}
 	return c.regexpVar(q[:i], q[i+1:])
+}
+
+// LEX-8: closure properties of the repository's own patterns, decided by evaluating the constant patterns on a few witness
+// strings (constant folding of the pattern, nothing of yae is executed):
+//
+//	(a) identifier-like words: whatever may START an identifier may also CONTINUE one — if the identifier pattern
+//	    (oper.idReg, the lexer's keyword look-ahead, the SYM rule) accepts a one-letter word w, it accepts ww; otherwise an
+//	    operator or variable made of such letters is identifier-like by its first rune only (`并且乙` splits, `trueé` is TRUE é);
+//	(b) a numeric literal never ends in a dot: `.` after a number is the member / method-call operator (`3.abs()`), so no NUM
+//	    pattern may match a prefix of "3.x" / "2.5.y" / "1e3.z" that ends with '.'.
+func ruleLex8(c *Ctx) {
+	c.R.Rule("LEX-8", 4, "pattern witnesses (constant evaluation of the repository's own regular expressions): a letter that may start an identifier-like word may also continue it (idReg, the keyword look-ahead and the SYM rule are closed under doubling of every accepted one-letter word); no numeric-literal pattern matches a prefix ending in '.', which is the member / method-call operator")
+	letters := []string{"a", "Z", "_", "é", "并", "ß", "Ж"}
+	check := func(owner, what string, re *regexp.Regexp, anchoredWhole bool, pos token.Pos) {
+		if re == nil {
+			c.R.Unk(owner, "LEX-8 "+what+" is a constant pattern", pos, "pattern is not a compile-time constant")
+			return
+		}
+		bad := ""
+		for _, w := range letters {
+			var one, two bool
+			if anchoredWhole {
+				one, two = re.MatchString(w), re.MatchString(w+w)
+			} else {
+				one = re.FindString(w) == w
+				two = re.FindString(w+w) == w+w
+			}
+			if one && !two {
+				bad = w
+			}
+		}
+		c.R.Check(bad == "", owner, "LEX-8 "+what+": start letters may continue", pos, "closed under doubling for the witness letters a Z _ é 并 ß Ж", "the pattern accepts the one-letter word "+bad+" but not "+bad+bad+": letters that may start an identifier-like word cannot continue it, so whole-word recognition of identifier-like operators, keywords and variables fails for them")
+	}
+	if init := c.VarInit("parser/oper", "idReg"); init != nil {
+		check("parser/oper.idReg", "identifier-like operator pattern", c.regexpVar("parser/oper", "idReg"), true, init.Pos())
+	} else {
+		c.R.Anchor("parser/oper.idReg")
+	}
+	if init := c.VarInit("parser/lexer", "keywordPostfix"); init != nil {
+		// the look-ahead must accept every letter that idReg accepts as a continuation: w is a continuation iff idReg accepts "a"+w
+		id := c.regexpVar("parser/oper", "idReg")
+		kp := c.regexpVar("parser/lexer", "keywordPostfix")
+		if id == nil || kp == nil {
+			c.R.Unk("parser/lexer.keywordPostfix", "LEX-8 keyword look-ahead is a constant pattern", init.Pos(), "pattern is not a compile-time constant")
+		} else {
+			bad := ""
+			for _, w := range append(letters, "0", "9") {
+				if id.MatchString("a"+w) && kp.FindString(w) == "" {
+					bad = w
+				}
+			}
+			c.R.Check(bad == "", "parser/lexer.keywordPostfix", "LEX-8 keyword look-ahead covers every identifier continuation", init.Pos(), "a word followed by any identifier character is not a keyword", "the whole-word look-ahead does not see "+bad+" as an identifier character although identifiers may contain it: a keyword or identifier-like operator followed by it is split off the longer word")
+		}
+	}
+	fd := c.FuncDecl("parser/lexer", "newLexicon")
+	if fd == nil {
+		c.R.Anchor("parser/lexer.newLexicon")
+		return
+	}
+	nums := 0
+	// (kind, pattern) pairs: arguments of regex(K, "..") calls, or rows {K, ".."} of a table the rules are built from
+	type kp struct {
+		kind ast.Expr
+		pat  ast.Expr
+		pos  token.Pos
+	}
+	var pairs []kp
+	for _, call := range c.allCallsDeepTo(fd.Body, "parser/lexer.regex") {
+		if len(call.Args) == 2 {
+			pairs = append(pairs, kp{call.Args[0], call.Args[1], call.Pos()})
+		}
+	}
+	if pk := c.Mod["parser/lexer"]; pk != nil {
+		for _, f := range pk.Syntax {
+			ast.Inspect(f, func(x ast.Node) bool {
+				cl, ok := x.(*ast.CompositeLit)
+				if !ok || len(cl.Elts) != 2 {
+					return true
+				}
+				var es [2]ast.Expr
+				for i, e := range cl.Elts {
+					if kv, ok := e.(*ast.KeyValueExpr); ok {
+						e = kv.Value
+					}
+					es[i] = e
+				}
+				if _, isStr := c.constStr(es[1]); isStr {
+					if o, ok := c.objOf(es[0]).(*types.Const); ok && o.Pkg() != nil && short(o.Pkg().Path()) == "parser/token" {
+						pairs = append(pairs, kp{es[0], es[1], cl.Pos()})
+					}
+				}
+				return true
+			})
+		}
+	}
+	for _, call := range pairs {
+		pat, ok := c.constStr(call.pat)
+		if !ok {
+			continue
+		}
+		re, err := regexp.Compile("^(?:" + pat + ")")
+		if err != nil {
+			continue
+		}
+		kind := ""
+		if o := c.objOf(call.kind); o != nil {
+			kind = o.Name()
+		}
+		switch kind {
+		case "SYM":
+			check("parser/lexer.newLexicon", "identifier rule", re, false, call.pos)
+		case "NUM":
+			nums++
+			bad := ""
+			for _, w := range []string{"3.x", "3.", "0.", "2.5.y", "1e3.z", "10.abs()", "0x1f.y", "0b1.y", "0o7.y"} {
+				if m := re.FindString(w); strings.HasSuffix(m, ".") {
+					bad = w
+				}
+			}
+			c.R.Check(bad == "", "parser/lexer.newLexicon", "LEX-8 number pattern "+strconv.Quote(pat)+" never ends in a dot", call.pos, "the dot after a number is left to the member operator", "the number pattern matches a prefix of "+strconv.Quote(bad)+" that ends in '.': the dot of a method call on a numeric literal (3.abs()) is swallowed by the number token")
+		}
+	}
+	c.R.Check(nums >= 2, "parser/lexer.newLexicon", "LEX-8 number patterns found", fd.Pos(), "numeric literal rules are constant patterns", "fewer than two constant NUM patterns found")
 }
